@@ -99,7 +99,7 @@ PROPS = {
         "module": "StrettoModel.Props.C03",
         "jobs": [cache_job(r"\.(store|expiry|ret|callbacks|len)$", extra=["--w-ttl", "70"])],
         "branches": ["get.hit", "get.expired", "get.miss", "getttl.remaining", "getttl.max", "getttl.none", "insert.ttl", "insert.update",
-                     "tick.reclaimed", "tick.recheck_skipped", "getmut.hit"],
+                     "tick.reclaimed", "tick.recheck_skipped", "getmut.hit", "getmut.expired", "getttl.expired", "iip.expired"],
         "assumptions": CACHE_ASSUME + ["the clock is monotone (virtual clock hook in ttl.rs); time is nanoseconds, so every placement relative to second boundaries is a value of `now`"],
     },
     "C05": {
@@ -138,10 +138,14 @@ PROPS = {
             "oracles": [{"name": "flavour-differential", "run": flavour_oracle}],
             "assumptions": CACHE_ASSUME + ["AsyncCache is tied to the model only through Cache: the same scripted histories (quiescence after every operation, virtual clock, equal sketch seeds) are run against both and every observable compared; executors sampled: thread-per-task, tokio multi-thread, tokio current-thread",
                                            "the gets_kept / gets_dropped split and the queue length legitimately differ (bounded 3 vs unbounded) and are masked; their sum is compared"]},
-    "C17": {"module": "StrettoModel.Props.C17", "jobs": [cache_job(r"\.(metrics|life|policy|ret)$", extra=["--w-clear", "4"]), policy_job(r"^pol\..*(metrics|state)$")],
-            "branches": ["get.hit", "get.miss", "getmut.hit", "getmut.miss", "get.closed", "insert.dropped", "padd.room", "padd.evicting", "padd.rejected", "padd.already_charged", "p.item.update", "delete.resident", "tick.reclaimed", "p.clear.buf1"],
+    "C17": {"module": "StrettoModel.Props.C17", "jobs": [cache_job(r"\.(metrics|life|policy|ret)$", extra=["--w-clear", "4"]), policy_job(r"^pol\..*(metrics|state)$"),
+                     {"name": "hist", "driver": "hist", "fields": r".*",
+                      "gen": lambda tier, seed: ["hist", "--seed", str(seed), "--ops", "200" if tier == "quick" else "600", "--lives", "30" if tier == "quick" else "120"],
+                      "seeds": {"quick": 1, "thorough": 6}}],
+            "branches": ["h.update.first", "h.update.last", "h.update.inner", "h.update.on_bound", "h.clear", "get.hit", "get.miss", "getmut.hit", "getmut.miss", "get.closed", "insert.dropped", "padd.room", "padd.evicting", "padd.rejected", "padd.already_charged", "p.item.update", "delete.resident", "tick.reclaimed", "p.clear.buf1"],
             "assumptions": CACHE_ASSUME + ["the 256 stripes of each counter are summed into one u64 total in the model; every law is proved modulo 2^64 (equality whenever the true quantities fit)",
-                                           "ratio() is f64 arithmetic on hits and misses and the histogram's count = sum of buckets are compared / monitored on the implementation's own output, not proved; in the modelled code no admission is ever tracked (F14), so the life-expectancy clause is exercised only through the per-step theorems"]},
+                                           "ratio() is f64 arithmetic on hits and misses and is compared on the implementation's own output, not proved; in the modelled code no admission is ever tracked (F14), so the cache never feeds the life-expectancy histogram: the histogram type itself (Histogram::new/update/clear/mean/percentile/Display, integer-valued bounds) is modelled, proved (count = sum of buckets, bucket of a sample) and tied by its own trace job through the public API",
+                                           "Histogram::clone shares the bucket vector with the original while copying count (a snapshot returned by life_expectancy_seconds() can therefore disagree with its own buckets after a later update of the live histogram); unreachable through the cache because of F14; recorded as observation O6"]},
     "C18": {"module": "StrettoModel.Props.C18",
             "jobs": [cache_job(r"\.(store|ret|callbacks)$", extra=["--collisions", "1"], quick_lives=14),
                      {"name": "keys", "driver": "keys", "gen": lambda tier, seed: ["keys", "--seed", str(seed), "--ops", "300" if tier == "quick" else "5000"],
@@ -176,7 +180,8 @@ PROPS = {
         "module": "StrettoModel.Props.C16",
         "jobs": [cache_job(r"\.(policy|callbacks|store)$")],
         "branches": ["padd.room", "padd.evicting", "padd.rejected", "padd.oversize", "padd.already_charged", "p.item.update", "tick.reclaimed"],
-        "assumptions": CACHE_ASSUME + ["Dom: cost + item_size does not overflow i64"],
+        "assumptions": CACHE_ASSUME + ["Dom: cost + item_size does not overflow i64",
+                                       "guard of admission_victim_reports_charge, checked by the driver on every observed iteration of the eviction loop: the entries appended to the sample are a valid fill_sample result for the current bookkeeping (RefillsOk = Lfu.validRefill at each iteration)"],
     },
     "C01": {
         "module": "StrettoModel.Props.C01",
